@@ -239,7 +239,7 @@ def build_harness(cfg, log, release=False):
 
 # ----------------------------------------------------------------------------- running cases
 
-SIGNAMES = {-6: "SIGABRT", -11: "SIGSEGV", -14: "SIGALRM", -4: "SIGILL", -7: "SIGBUS", -9: "SIGKILL", -8: "SIGFPE", -5: "SIGTRAP"}
+SIGNAMES = {-6: "SIGABRT", -11: "SIGSEGV", -14: "SIGALRM", -27: "SIGPROF", -4: "SIGILL", -7: "SIGBUS", -9: "SIGKILL", -8: "SIGFPE", -5: "SIGTRAP"}
 
 
 def run_isolated(argv_for, first, count, budget, log_prefix="", extra_env=None):
@@ -275,9 +275,9 @@ def run_isolated(argv_for, first, count, budget, log_prefix="", extra_env=None):
         kindsig = SIGNAMES.get(rc, "rc=%d" % rc)
         verdict = "!abort:" + kindsig
         deaths += 1
-        if rc == -14 and deaths > 2:
+        if rc in (-14, -27) and deaths > 2:
             verdict = "!hang"
-        elif rc == -14:
+        elif rc in (-14, -27):
             # re-run alone with a 10x budget before calling it a hang
             rc2, out2 = sh(argv_for(int(cid), 1), env=dict(extra_env or {}, PVH_CASE_SECONDS=str(budget * 10)), timeout=None)
             obs2 = [l for l in out2.split("\n") if l.startswith("OBS ")]
@@ -318,8 +318,8 @@ def run_replay_file(exe, path, budget, extra_env=None):
         if rc == 0 or pending is None:
             break
         cid = pending.split(" ")[1]
-        verdict = "!hang" if rc == -14 else "!abort:" + SIGNAMES.get(rc, "rc=%d" % rc)
-        if rc != -14:
+        verdict = "!hang" if rc in (-14, -27) else "!abort:" + SIGNAMES.get(rc, "rc=%d" % rc)
+        if rc not in (-14, -27):
             tail = [l for l in got if l and not l.startswith("CASE ") and not l.startswith("OBS ")]
             if tail:
                 verdict += " " + tail[-1][:200].replace("\n", " ")
